@@ -8,6 +8,7 @@ import (
 	"strings"
 
 	"verif/common"
+	"verif/gcs/drive"
 	"verif/gcs/model"
 )
 
@@ -229,6 +230,9 @@ type progOpts struct {
 	NoGzip      bool
 	ExtraPct    int // % of multipart/resumable uploads whose metadata carries nested fields (acl, owner, ...)
 	CopyBodyPct int // % of copies whose request body is a full destination resource
+	// GzipObjPct: % of uploads whose payload is itself a gzip stream; three in four of those sent by multipart / resumable
+	// declare contentEncoding gzip in their metadata (the others, and media uploads, can get it by a later PATCH).
+	GzipObjPct int
 }
 
 func (e *exec) liveIn(b string) []string { return e.m.Names(b) }
@@ -350,6 +354,18 @@ func genUpload(r *common.Rand, o *progOpts, b, n string) *uploadSpec {
 			u.Extra = genExtra(r)
 		}
 	}
+	if o.GzipObjPct > 0 && r.Chance(o.GzipObjPct, 100) {
+		// the object's own bytes are a gzip stream (of a small or a multi-kilobyte text / binary payload)
+		plain := genPayload(r, u.Boundary, 0)
+		if r.Bool() {
+			plain = []byte(strings.Repeat(fmt.Sprintf("compressible line %d\n", r.Intn(1000)), r.Range(1, 400)))
+		}
+		u.Body = drive.Gzip(plain)
+		// (not with a deliberately wrong MD5: the bytes that would match it - which a retry may send - are no gzip stream)
+		if u.Proto != "media" && u.MD5 != "wrong" && r.Chance(3, 4) {
+			u.ContentEncoding = "gzip"
+		}
+	}
 	if u.Proto != "resumable" && !o.NoGzip && r.Chance(20, 100) {
 		u.Gzip = true
 	}
@@ -369,7 +385,7 @@ func genUpload(r *common.Rand, o *progOpts, b, n string) *uploadSpec {
 // runStep draws one step from the weighted kinds, executes it and returns what it refuted ("" if nothing).
 func runStep(r *common.Rand, e *exec, o *progOpts) string {
 	total := 0
-	kinds := []string{"upload", "overwrite", "delete", "delete_absent", "patch", "patch_absent", "compose", "copy", "burst", "patch_burst", "patch_full", "patch_bad", "bucket_cycle", "noop"}
+	kinds := []string{"upload", "overwrite", "delete", "delete_absent", "patch", "patch_absent", "compose", "copy", "burst", "patch_burst", "patch_full", "patch_bad", "bucket_cycle", "noop", "reads", "decoy"}
 	for _, k := range kinds {
 		total += o.W[k]
 	}
@@ -404,6 +420,15 @@ func runStep(r *common.Rand, e *exec, o *progOpts) string {
 	mustFail := func(n string, c model.Conds) bool {
 		cur := e.m.Get(b, n)
 		return cur == nil || model.Eval(cur, c) != model.Pass
+	}
+	// a PATCH may declare (or withdraw) the gzip encoding of an object whose bytes are a gzip stream
+	withEncoding := func(n string, fields map[string]any) map[string]any {
+		if cur := e.m.Get(b, n); cur != nil && r.Chance(1, 2) {
+			if _, isGz := drive.Gunzip(cur.Content); isGz {
+				fields["contentEncoding"] = common.Pick(r, []string{"gzip", "gzip", "identity"})
+			}
+		}
+		return fields
 	}
 	// failing PATCH requests also try to set nested fields (acl entries, owner, ...): nothing of it may stick
 	withNested := func(n string, c model.Conds, fields map[string]any) map[string]any {
@@ -441,7 +466,7 @@ func runStep(r *common.Rand, e *exec, o *progOpts) string {
 			u := genUpload(r, o, b, n)
 			u.Proto = common.Pick(r, []string{"media", "media", "multipart"})
 			u.Body = []byte(fmt.Sprintf("burst %d", i))
-			u.Gzip, u.MD5 = false, ""
+			u.Gzip, u.MD5, u.ContentEncoding = false, "", ""
 			if msg := e.upload(u, r); msg != "" {
 				return msg
 			}
@@ -530,6 +555,10 @@ func runStep(r *common.Rand, e *exec, o *progOpts) string {
 			for _, k := range nestedFields {
 				delete(body, k)
 			}
+			// ... and declares the gzip encoding (another object's resource may carry it) only for bytes that are gzip
+			if _, isGz := drive.Gunzip(e.m.Get(b, n).Content); !isGz {
+				delete(body, "contentEncoding")
+			}
 		}
 		return e.patch(b, n, withNested(n, c, body), c)
 	case "patch_bad":
@@ -571,7 +600,7 @@ func runStep(r *common.Rand, e *exec, o *progOpts) string {
 			return ""
 		}
 		c := genConds(r, e, o, b, n)
-		return e.patch(b, n, withNested(n, c, genPatchFields(r)), c)
+		return e.patch(b, n, withNested(n, c, withEncoding(n, genPatchFields(r))), c)
 	case "patch_absent":
 		n, ok := pickAbsent()
 		if !ok {
@@ -645,6 +674,131 @@ func runStep(r *common.Rand, e *exec, o *progOpts) string {
 			return e.copyObjBody(b, sn, db, dn, genCopyBody(r, e, b, sn, db, dn))
 		}
 		return e.copyObj(b, sn, db, dn)
+	case "reads":
+		n, ok := pickLive()
+		if ok && r.Chance(2, 3) {
+			// prefer an object stored with contentEncoding gzip
+			var gz []string
+			for _, l := range live {
+				if gzipEncoded(e.m.Get(b, l)) {
+					gz = append(gz, l)
+				}
+			}
+			if len(gz) > 0 {
+				n = common.Pick(r, gz)
+			}
+		}
+		if !ok || r.Chance(1, 10) {
+			if n, ok = pickAbsent(); !ok {
+				return ""
+			}
+		}
+		return e.reads(r, b, n)
+	case "decoy":
+		return decoyStep(r, e, o, b)
 	}
-	return "" // noop: only the dump
+	// noop: only the dump, which is made of reads - it must equal the previous one
+	e.mustSame, e.readOnly = true, true
+	return ""
+}
+
+func hasVerb(name string) bool {
+	return strings.Contains(name, "/compose") || strings.Contains(name, "/rewriteTo/")
+}
+
+// decoyStep addresses a request to a name under which nothing is stored: a "/"-separated prefix of a stored name with or
+// without a trailing slash ("reports/2024", "reports/" while "reports/2024/q1.bin" exists), a stored name continued by
+// a slash, or one of the never-written decoy names of the dump universe. The request is a delete (mostly), a patch, a
+// patch with a type error, a copy from that name or a compose that lists it as a source; none of them may be
+// acknowledged and the whole store - in particular everything stored below the prefix - must stay as it was.
+func decoyStep(r *common.Rand, e *exec, o *progOpts, b string) string {
+	type cand struct {
+		name   string
+		folder bool
+	}
+	var cands []cand
+	seen := map[string]bool{}
+	add := func(n string) {
+		if n == "" || seen[n] || e.m.Get(b, n) != nil || len(e.laws.Seen(b, n)) > 0 {
+			return
+		}
+		seen[n] = true
+		cands = append(cands, cand{n, e.folderOf(b, n)})
+	}
+	live := e.liveIn(b)
+	for _, l := range live {
+		for i := 0; i < len(l); i++ {
+			if l[i] == '/' && i > 0 && l[i-1] != '/' {
+				add(l[:i])
+				add(l[:i+1])
+			}
+		}
+		if !strings.HasSuffix(l, "/") {
+			add(l + "/")
+		}
+	}
+	nFolder := len(cands)
+	for _, n := range e.universe[b] {
+		add(n)
+	}
+	if len(cands) == 0 {
+		return ""
+	}
+	c := common.Pick(r, cands)
+	if nFolder > 0 && r.Chance(2, 3) {
+		c = cands[r.Intn(nFolder)] // prefixes of stored names and stored names continued by "/"
+	}
+	inUniverse := false
+	for _, n := range e.universe[b] {
+		inUniverse = inUniverse || n == c.name
+	}
+	if !inUniverse {
+		// every later dump reads the name as well; the dump right now is the baseline the next one is compared with
+		e.universe[b] = append(e.universe[b], c.name)
+		if msg := e.verify(); msg != "" {
+			return fmt.Sprintf("dump that first reads the never-stored name %q: %s", c.name, msg)
+		}
+	}
+	e.stats["decoy_steps"]++
+	if c.folder {
+		e.stats["decoy_steps_on_folder_prefix_names"]++
+		if strings.HasSuffix(c.name, "/") {
+			e.stats["decoy_steps_on_folder_prefix_names_with_trailing_slash"]++
+		}
+	} else if strings.HasSuffix(c.name, "/") {
+		e.stats["decoy_steps_on_stored_name_plus_slash"]++
+	}
+	conds := genConds(r, e, o, b, c.name)
+	switch x := r.Intn(10); {
+	case x < 6:
+		if c.folder {
+			return e.delFolder(b, c.name, conds)
+		}
+		return e.del(b, c.name, conds)
+	case x < 8:
+		fields := genPatchFields(r)
+		if r.Chance(2, 3) {
+			for k, v := range genNestedPatch(r) {
+				fields[k] = v
+			}
+		}
+		return e.patch(b, c.name, fields, conds)
+	case x == 8:
+		return e.patchBad(b, c.name, genBadPatch(r, true), conds)
+	}
+	// as the source of a copy / among the sources of a compose onto a destination that may exist. (Not for names that
+	// contain the API's own verbs: copy / compose URLs of such names are outside the generated space, DESIGN 5/C02.)
+	dn, ok := pickTarget(r, e, o, b)
+	if !ok || hasVerb(c.name) || hasVerb(dn) {
+		return e.delFolder(b, c.name, model.Conds{})
+	}
+	if len(live) == 0 || r.Bool() {
+		return e.copyObj(b, c.name, b, dn)
+	}
+	spec := &composeSpec{Bucket: b, Dst: dn, CT: common.Pick(r, contentTypes)}
+	for i, k := 0, r.Range(1, 3); i < k; i++ {
+		spec.Srcs = append(spec.Srcs, composeSrc{Name: common.Pick(r, live)})
+	}
+	spec.Srcs[r.Intn(len(spec.Srcs))].Name = c.name
+	return e.compose(spec)
 }
